@@ -142,6 +142,13 @@ static void foreign_check(FdEnt *e, int fd, const char *what) {
     if (e && !e->lib_created && lib_ctx())
         G->violation("C08.foreign_fd", "library code performed a successful %s on descriptor %d which it did not create (inside %s)", what, fd, cur()->api_name);
 }
+// C08: in the forked child xcm_cleanup may free process-local resources only; a call whose effect the
+// owner would see (shared open file descriptions, the file system, the wire) is a violation
+static void child_check(const char *what, int fd) {
+    if (K->child_mode && lib_ctx())
+        G->violation("C08.cleanup_touched_owner", "xcm_cleanup in a forked child performed %s (descriptor %d): the owner's %s is altered", what, fd,
+                     !strncmp(what, "epoll_ctl", 9) ? "epoll instance (shared open file description)" : !strncmp(what, "unlink", 6) ? "file" : !strncmp(what, "timerfd", 7) ? "timer (shared open file description)" : "connection");
+}
 // C05: a call that may sleep, issued inside an API call on a non-blocking XCM socket
 static void maysleep_check(const char *what) {
     Task *t = cur();
@@ -892,6 +899,7 @@ static ssize_t send_impl(int fd, const void *buf, size_t len, int flags) {
 
 ssize_t send(int fd, const void *buf, size_t len, int flags) {
     ssize_t rc = send_impl(fd, buf, len, flags);
+    if (rc > 0) { int e = errno; child_check("send", fd); errno = e; }
     Task *t = cur();
     if (t && t->api_depth > 0 && !strcmp(t->api_name, "xcm_close") && (rc < 0 || (size_t)rc < len)) { int e = errno; t->close_send_truncated = true; errno = e; }
     return rc;
@@ -1204,6 +1212,7 @@ int epoll_ctl(int epfd, int op, int fd, void *evp) {
         ep->regs.erase(r);
     } else KERR(C_EPCTL, EINVAL);
     G->kmut++;
+    child_check(op == EPOLL_CTL_DEL ? "epoll_ctl(DEL)" : op == EPOLL_CTL_MOD ? "epoll_ctl(MOD)" : "epoll_ctl(ADD)", fd);
     G->logf("epoll_ctl(%d, op %d, fd %d, ev 0x%x) = 0", epfd, op, fd, ev ? ev->events : 0);
     KRET(C_EPCTL, 0);
 }
@@ -1236,6 +1245,7 @@ int timerfd_settime(int fd, int flags, const struct itimerspec *nv, struct itime
     auto t = std::dynamic_pointer_cast<TimerFd>(e->f);
     if (!t) KERR(C_TFDS, EINVAL);
     foreign_check(e, fd, "timerfd_settime");
+    child_check("timerfd_settime", fd);
     if (ov) memset(ov, 0, sizeof(*ov));
     Time v = nv->it_value.tv_sec * SEC + nv->it_value.tv_nsec;
     if (v == 0) t->armed = false;
@@ -1441,6 +1451,7 @@ int unlink(const char *path) {
     if (K->fs[rp].type == FsNode::DIR) KERR(C_UNLINK, EISDIR);
     K->fs.erase(rp);
     G->kmut++;
+    child_check("unlink", -1);
     G->logf("unlink(%s) = 0", path);
     KRET(C_UNLINK, 0);
 }
